@@ -25,6 +25,7 @@ def run(ctx):
     f = need(fx, MV + "resize_to_capacity")
     ctx.analysed_fns.add(f.id)
     order.precede(ctx, f, r"fs::File::set_len$", r"::create_mmap$", R, "file extended before it is remapped")
+    order.precede(ctx, f, r"MmapVec::<T>::sync$", r"::create_mmap$", R, "mapping written back before the file is re-read into the new mapping")
     order.precede(ctx, f, r"::create_mmap$", r"::set_capacity$", R, "capacity persisted only after the file was extended and remapped")
     order.precede(ctx, f, r"fs::File::set_len$", r"::set_capacity$", R, "capacity persisted only after File::set_len")
     order.precede(ctx, f, r"::update_pointers$", r"::set_capacity$", R, "header pointer refreshed before the capacity store")
@@ -46,7 +47,7 @@ def run(ctx):
     f = Fn(fx.raw(fr[0]))
     ctx.analysed_fns.add(f.id)
     order.precede(ctx, f, r"Write>::flush$|Write::flush$", r"fs::File::sync_all$", R, "run flushed before it is synced")
-    ctx.floor(R + ".events", 14)
+    ctx.floor(R + ".events", 15)
 
     # header sizes vs bytes present on open
     f = need(fx, MV + "open")
